@@ -284,6 +284,11 @@ func desugarFlagPolarity(p *Prog) int {
 					if top(rhs, false) != token.LOR {
 						continue
 					}
+					// only when the negation reads more plainly: fewer negative leaves (`!x`, `a != b`) than before.
+					// `matches := isGenesis || a == b` stays as it is; `isNew := !known || n <= i` becomes `known && n > i`
+					if negLeaves(rhs, false) <= negLeaves(rhs, true) {
+						continue
+					}
 					// every use must be rewritable in place: collect parents
 					parents := parentMap(fd.Body)
 					var uses []*ast.Ident
@@ -391,4 +396,36 @@ func replaceChild(parent ast.Node, old, repl ast.Expr) {
 			p.X = repl
 		}
 	}
+}
+
+
+// negLeaves counts the negative leaves (`!x`, `a != b`) of a boolean expression read as it stands, or negated.
+func negLeaves(e ast.Expr, negated bool) int {
+	switch x := ast.Unparen(e).(type) {
+	case *ast.UnaryExpr:
+		if x.Op == token.NOT {
+			return negLeaves(x.X, !negated)
+		}
+	case *ast.BinaryExpr:
+		switch x.Op {
+		case token.LAND, token.LOR:
+			return negLeaves(x.X, negated) + negLeaves(x.Y, negated)
+		case token.EQL:
+			if negated {
+				return 1
+			}
+			return 0
+		case token.NEQ:
+			if negated {
+				return 0
+			}
+			return 1
+		case token.LSS, token.LEQ, token.GTR, token.GEQ:
+			return 0
+		}
+	}
+	if negated {
+		return 1
+	}
+	return 0
 }
